@@ -384,7 +384,7 @@ func raceSummary(s string) string {
 	var out []string
 	for _, l := range strings.Split(s, "\n") {
 		l = strings.TrimSpace(l)
-		if strings.Contains(l, "gengo/pkg/inflector") && len(out) < 4 {
+		if strings.Contains(l, "octohelm/gengo/") && strings.HasSuffix(l, "()") && len(out) < 5 {
 			out = append(out, l)
 		}
 	}
